@@ -1211,7 +1211,7 @@ def run(ctx):
                    input_distribution=dict(structure_sizes=list(sizes),
                                            tv_goals=len(tvs), instance_goals=len(ins), search_evaluations=n_eval),
                    instances_only=[],
-                   swept_only=['basex projections chi_k', 'daun degree 3: that solve_banded returns the clamped-spline slopes',
+                   swept_only=['basex projections chi_k', 'daun degree 3: existence/accuracy of the banded solve and the index conventions of the row shuffle (theorem C09_daun3_spline_entry takes any solutions of the two tridiagonal systems)',
                                'get_bs_cached histories (crop / load / extend)'],
                    exhaustive=False)
     new = 0
